@@ -708,4 +708,11 @@ def run(ctx):
     from rules import c04 as _c04, c05 as _c05
     _c04.rule_regs_source(ctx, R="C06/stack-pointer/thread")
     _c05.rule_greg_map(ctx, R="C06/stack-pointer/crash-context")
+    # a stack descriptor that names a position is followed, on every path to a success return, by the append of exactly those bytes
+    # (same rule instance as C01/pos-append)
+    from rules import c01 as _c01pa
+    _c01pa.rule_pos_append(ctx, R="C06/descriptor-then-bytes")
+    # the mapping list is built from the whole memory map (same rule instance as C13/whole-map-read)
+    from rules import c13 as _c13w
+    _c13w.rule_whole_map_read(ctx, R="C06/whole-map-read")
 
